@@ -66,6 +66,10 @@ func (o *OverlayFS) ReadDir(name string) ([]fs.DirEntry, error) {
 	if len(merged) == 0 && lastErr != nil && !found {
 		return nil, lastErr
 	}
+	// No layer was asked at all (every layer is nil): only the root exists, as an empty directory
+	if !found && lastErr == nil && name != "." {
+		return nil, &fs.PathError{Op: "readdir", Path: name, Err: fs.ErrNotExist}
+	}
 
 	entries := make([]fs.DirEntry, 0, len(merged))
 	for _, e := range merged {
